@@ -131,7 +131,8 @@ def Inv (s : St) : Prop :=
 private theorem inv_init (c : Nat) (hc : c < M) : Inv (init c) := by
   refine ⟨hc, Nat.mod_eq_of_lt hc, List.nodup_nil, ?_, ?_, ?_⟩ <;> simp [init]
 
-private theorem put_fresh (s : St) (id : Nat) (h : id ∉ s.live) : put s id = { s with live := id :: s.live } := by
+private theorem put_fresh (s : St) (id : Nat) (h : id ∉ s.live) :
+    put s id = { s with live := id :: s.live, openIds := id :: s.openIds } := by
   simp [put, h]
 
 private theorem alloc_arith (ticks c id : Nat) (hc : c < M) (hid : id < M) (ht : ticks % M = c) :
@@ -203,7 +204,7 @@ private theorem step_inv (s : St) (a : Act) (h : Inv s) : Inv (step s a) := by
       by_cases hmem : p ∈ s.live
       · have : put { s with pending := none, late := s.late || decide (s.ticks - tp > M) } p =
             { s with pending := none, late := s.late || decide (s.ticks - tp > M),
-                     collisions := s.collisions + 1 } := by simp [put, hmem]
+                     collisions := s.collisions + 1, openIds := p :: s.openIds } := by simp [put, hmem]
         rw [this]
         refine ⟨hc, ht, hnd, hlt, by simp, ?_⟩
         intro hl
@@ -226,6 +227,15 @@ private theorem step_inv (s : St) (a : Act) (h : Inv s) : Inv (step s a) := by
     intro p tp hpend
     obtain ⟨e1, e2, e3, e4⟩ := hp p tp hpend
     exact ⟨e1, e2, e3, fun hle hm => e4 hle (List.mem_of_mem_erase hm)⟩
+  | peerFailure id pending =>
+    cases pending with
+    | false => exact ⟨hc, ht, hnd, hlt, hp, hcol⟩
+    | true =>
+      refine ⟨hc, ht, hnd.erase id, fun i hi => hlt i (List.mem_of_mem_erase hi), ?_, hcol⟩
+      intro p tp hpend
+      obtain ⟨e1, e2, e3, e4⟩ := hp p tp hpend
+      exact ⟨e1, e2, e3, fun hle hm => e4 hle (List.mem_of_mem_erase hm)⟩
+  | peerSuccess id => exact ⟨hc, ht, hnd, hlt, hp, hcol⟩
 
 /-- the invariant holds after every history of local opens, peer opens (allocate / register / reject),
     deletions (close, open failure, unlink, weak reference dying) — started from any state satisfying it -/
@@ -281,6 +291,88 @@ theorem never_hung_step (s : St) (a : Act) (hi : Inv s) (hlen : s.live.length < 
     | some r => simp only [put]; split <;> exact hh
   | peerReject => exact hh
   | delete id => exact hh
+  | peerFailure id pending => cases pending <;> exact hh
+  | peerSuccess id => exact hh
+
+/-! ## open channels stay registered -/
+
+/-- every open Channel object is in the map under its id -/
+def OpenInv (s : St) : Prop := ∀ id ∈ s.openIds, id ∈ s.live
+
+private theorem open_put (s : St) (id : Nat) (h : OpenInv s) : OpenInv (put s id) := by
+  unfold put
+  split
+  · rename_i hc
+    intro x hx
+    simp only [List.mem_cons] at hx
+    rcases hx with rfl | hx
+    · simpa using hc
+    · exact h x hx
+  · intro x hx
+    simp only [List.mem_cons] at hx ⊢
+    rcases hx with rfl | hx
+    · exact .inl rfl
+    · exact .inr (h x hx)
+
+private theorem open_remove (s : St) (id : Nat) (h : OpenInv s) : OpenInv (remove s id) := by
+  intro x hx
+  simp only [remove, List.mem_filter, bne_iff_ne, ne_eq] at hx
+  exact (List.mem_erase_of_ne hx.2).2 (h x hx.1)
+
+private theorem step_open (s : St) (a : Act) (h : OpenInv s) : OpenInv (step s a) := by
+  cases a with
+  | openLocal =>
+    simp only [step]
+    cases nextChannel (isLive s) s.counter with
+    | none => exact h
+    | some r => exact open_put _ r.1 h
+  | peerAlloc =>
+    simp only [step]
+    cases s.pending with
+    | some _ => exact h
+    | none =>
+      cases nextChannel (isLive s) s.counter with
+      | none => exact h
+      | some r => exact h
+  | peerPut =>
+    simp only [step]
+    cases s.pending with
+    | none => exact h
+    | some r => exact open_put _ r.1 h
+  | peerReject => exact h
+  | delete id => exact open_remove s id h
+  | peerFailure id pending =>
+    cases pending with
+    | false => exact h
+    | true => exact open_remove s id h
+  | peerSuccess id => exact h
+
+/-- **Every open channel stays in the channel map**, for every history of opens, peer opens, closes and of
+    peer-sent CHANNEL_OPEN_FAILURE / CHANNEL_OPEN_CONFIRMATION messages naming ANY id (established, pending or
+    unknown): a failure only removes a channel whose open is still pending. -/
+theorem open_channels_registered (c : Nat) (h : List Act) :
+    ∀ id ∈ (run (init c) h).openIds, id ∈ (run (init c) h).live := by
+  have : ∀ (as : List Act) (s : St), OpenInv s → OpenInv (run s as) := by
+    intro as
+    induction as with
+    | nil => intro s hs; exact hs
+    | cons a as ih => intro s hs; exact ih _ (step_open s a hs)
+  exact this h _ (by intro id hid; simp [init] at hid)
+
+/-- … hence **allocation never returns the id of an open channel**, wherever the counter has wrapped to -/
+theorem alloc_never_returns_open_id (c : Nat) (hc : c < M) (h : List Act) (id c' : Nat)
+    (ha : nextChannel (isLive (run (init c) h)) (run (init c) h).counter = some (id, c')) :
+    id ∉ (run (init c) h).openIds := by
+  have hi := inv_run _ h (inv_init c hc)
+  have hf := (nextChannel_fresh _ id c' hi.1 ha).1
+  exact fun hm => hf (open_channels_registered c h id hm)
+
+/-- what goes wrong if an open channel is missing from the map (e.g. an OPEN_FAILURE that deletes an established
+    channel's entry): the counter wraps onto its id and `_next_channel` hands it out again -/
+theorem unregistered_open_channel_is_reallocated_witness :
+    let s : St := { init 16777215 with openIds := [16777215] }
+    nextChannel (isLive s) s.counter = some (16777215, 0) ∧ 16777215 ∈ s.openIds := by
+  decide +kernel
 
 /-- non-vacuity: a history across the wrap (counter starts at 2^24 - 2) with a peer open whose callback
     window contains two local opens, a close and a re-open; no collision, not late, ids as expected. -/
